@@ -8,7 +8,7 @@ from common import Rng, F, close
 
 PROP = 'C15'
 MODEL_OPS = 'Misc.convert (family + exact scale factor)'
-RULE = ('read order nu or wav (drawn per case); all 5x5 stored/requested pairs of {mJy, Jy, erg cm-2 s-1, erg s-1, W m-2}, 1-5 apertures, distances over 6 decades, random frequency grids (2-12 points, either order); '
+RULE = ('read order nu or wav (drawn per case); all 5x5 stored/requested pairs of {mJy, Jy, erg cm-2 s-1, erg s-1, W m-2}, 1-5 apertures, the uncertainty column stored in the unit of the flux column or in another one, distances over 6 decades, random frequency grids (2-12 points, either order); '
         'per pair: read in the requested unit (vs the model), write that SED and read it back in the stored unit (A->B->A) and in a third unit (A->B->C vs A->C); '
         'an unsupported requested unit must be refused; a twin SED (same units, distance, length and end frequencies, other interior frequencies) is read afterwards in the same process. quick: 25 pairs x 8; thorough: 25 x 200. non-trivial = stored and requested units differ.')
 EXHAUSTIVE = {'quick': True, 'thorough': True}
@@ -35,7 +35,7 @@ def generate(tier, seed):
                     mid = sorted(set(x for x in (rng.dyadic(nu[0], nu[-1], 12) for _ in range(4 * len(nu))) if nu[0] < x < nu[-1] and x not in nu))[:len(nu) - 2]
                     if len(mid) == len(nu) - 2:
                         twin = [nu[0]] + mid + [nu[-1]]
-                cases.append(dict(twin_nu=twin, stored=a, requested=b, third=rng.choice(names), nu=nu, order=rng.choice(['incr', 'decr']),
+                cases.append(dict(err_unit=(a if rng.random() < 0.5 else rng.choice(names)), twin_nu=twin, stored=a, requested=b, third=rng.choice(names), nu=nu, order=rng.choice(['incr', 'decr']),
                                   flux=[[rng.logdyadic(1e-3, 1e3, 10) for _ in nu] for _ in range(nap)], dist_kpc=rng.logdyadic(1e-3, 1e3, 8),
                                   bad=rng.choice(['K', 'm', 'Hz', 'kg']) if r == 0 else None, read_order=rng.choice(['nu', 'wav'])))
     return cases
@@ -54,7 +54,8 @@ def impl(case):
     s.wav = s.nu.to(u.micron, equivalencies=u.spectral())
     s.apertures = None if len(case['flux']) == 1 else np.arange(1, len(case['flux']) + 1) * 100.0 * u.au
     s.flux = np.array([r if o == 'incr' else list(reversed(r)) for r in case['flux']]) * u.Unit(case['stored'])
-    s.error = s.flux * 0.5
+    # the uncertainty column may be stored in another unit than the flux column (SED.write keeps the two units apart)
+    s.error = s.flux.value * 0.5 * u.Unit(case.get('err_unit', case['stored']))
     out = {}
     with tempfile.TemporaryDirectory() as d:
         p = os.path.join(d, 's_sed.fits')
@@ -81,7 +82,7 @@ def impl(case):
             t.wav = t.nu.to(u.micron, equivalencies=u.spectral())
             t.apertures = s.apertures
             t.flux = s.flux
-            t.error = s.error
+            t.error = s.flux * 0.5
             pt = os.path.join(d, 't_sed.fits')
             t.write(pt)
             _, out['twin'] = rd(pt, case['requested'])
@@ -148,6 +149,21 @@ def judge(case, im, mo):
                 fail.append('relations: %r %s at nu=%r, d=%r cm read (order=%s) as %r %s; F = nu F_nu, L = F d^2 give %r' % (row[j], case['stored'], v, float(d), case.get('read_order'), B['flux'][a][pos[v]], case['requested'], float(want)))
                 break
         if fail:
+            break
+    # the uncertainties obey the same relations, from the unit THEIR column was stored in
+    fe, ke = UNITS[case.get('err_unit', case['stored'])]
+    for j, v in enumerate(nu):
+        bad = False
+        for a, row in enumerate(case['flux']):
+            x = F(row[j]) * F(0.5) * ke
+            base = x * F(v) if fe == 'Fnu' else (x if fe == 'Fint' else x / (d * d))
+            want = (base / F(v) if fb == 'Fnu' else (base if fb == 'Fint' else base * d * d)) / kb
+            if abs(F(B['error'][a][pos[v]]) - want) > Fraction(1, 10 ** 11) * abs(want):
+                fail.append('relations(error): uncertainty %r %s (flux column in %s) at nu=%r read as %r %s; the relations give %r'
+                            % (row[j] * 0.5, case.get('err_unit', case['stored']), case['stored'], v, B['error'][a][pos[v]], case['requested'], float(want)))
+                bad = True
+                break
+        if bad:
             break
     if im.get('twin') and case.get('twin_nu'):
         T = im['twin']
